@@ -32,8 +32,8 @@ func init() {
 func runC17(c *an.Ctx) {
 	c.Floor("C17-R1", 1)
 	c.Floor("C17-R2", 4)
-	c.Floor("C17-R3", 1)
-	c.Floor("C17-R4", 2)
+	c.Floor("C17-R3", 3)
+	c.Floor("C17-R4", 3)
 	const fw = "dnsserver/forward."
 
 	// ---- R1
@@ -262,6 +262,138 @@ func runC17(c *an.Ctx) {
 	// the backoff comparison: Since(lastFailed) < hcBackoff
 	// (the feature "inbackoff" is bound to exactly this comparison)
 	// handled by mapping below
+
+	// ---- R3b: what counts as a healthy probe, and which upstreams become active
+	rcSuccess, _ := c.ConstInt("github.com/miekg/dns", "RcodeSuccess")
+	decide(c, "C17-R3", fw+"checkUpstream", an.DecideCfg{
+		Dom: an.Domain{"exerr": an.Bools, "resp": an.NilOrNot, "resp.MsgHdr.Rcode": an.Ints(rcSuccess, 2, 3, 5)},
+		OnCall: func(it *an.Interp, name string, args []an.AV) (an.AV, bool) {
+			switch {
+			case name == "p1.Exchange":
+				e := an.Nil()
+				if it.Feature("exerr").IsTrue() {
+					e = an.NonNil("exErr")
+				}
+				r := it.Feature("resp")
+				if r.Kind == an.KNonNil {
+					r.Key = "resp"
+				}
+				return an.AV{Kind: an.KTuple, Tup: []an.AV{r, an.Sym("nw"), e}}, true
+			case name == "fmt.Errorf":
+				return an.NonNil("wrapped"), true
+			}
+			return an.AV{}, false
+		},
+		MaxFree: 2,
+		Expect: func(f an.Features, o an.AOutcome) string {
+			healthy := !f.B("exerr") && !f.IsNil("resp") && f.I("resp.MsgHdr.Rcode") == rcSuccess
+			if o.Exit == "return" && len(o.Ret) == 1 && (o.Ret[0].Kind == an.KNil) == healthy {
+				return ""
+			}
+			return fmt.Sprintf("healthy=%v (only an error-free NOERROR reply counts as up)", healthy)
+		},
+	})
+	decide(c, "C17-R3", fw+"(*Handler).healthcheck", an.DecideCfg{
+		Dom: an.Domain{"rnd": an.Bools, "len(p0.upstreams)": an.Ints(0, 1, 2), "s0": an.Strs("backoff", "down", "up"), "s1": an.Strs("backoff", "down", "up")},
+		Inline: func(f *ssa.Function) bool { return an.FnKey(f) == fw+"(*Handler).healthcheck$1" },
+		OnCall: func(it *an.Interp, name string, args []an.AV) (an.AV, bool) {
+			switch {
+			case name == "strings.Contains":
+				return it.Feature("rnd"), true
+			case name == "strings.ReplaceAll", strings.HasSuffix(name, "FormatUint"):
+				return an.Sym("domain"), true
+			case strings.HasSuffix(name, "forward.newProbeReq"):
+				return an.NonNil("probe"), true
+			case strings.HasSuffix(name, ").healthcheckUpstream"):
+				k := "s0"
+				if strings.Contains(args[2].String(), "[1]") {
+					k = "s1"
+				}
+				switch it.Feature(k).String() {
+				case `"backoff"`:
+					return an.AV{Kind: an.KTuple, Tup: []an.AV{an.CBool(true), an.Nil()}}, true
+				case `"down"`:
+					return an.AV{Kind: an.KTuple, Tup: []an.AV{an.CBool(false), an.NonNil("down:" + k)}}, true
+				}
+				return an.AV{Kind: an.KTuple, Tup: []an.AV{an.CBool(false), an.Nil()}}, true
+			case strings.HasSuffix(name, "errors.Join"):
+				return an.NonNil("joined"), true
+			case strings.HasSuffix(name, "errors.Annotate"):
+				return args[0], true
+			}
+			return an.AV{}, false
+		},
+		Expect: func(f an.Features, o an.AOutcome) string {
+			var want []string
+			n := int(f.I("len(p0.upstreams)"))
+			for i := 0; i < n; i++ {
+				if f.S(fmt.Sprintf("s%d", i)) == "up" {
+					want = append(want, fmt.Sprintf("p0.upstreams[%d].upstream", i))
+				}
+			}
+			got := ""
+			for _, e := range o.Effects {
+				if e.Kind == "store" && e.Name == "p0.activeUpstreams" {
+					got = e.Args[0]
+				}
+			}
+			wantS := "nil"
+			if len(want) > 0 {
+				wantS = "[" + strings.Join(want, ", ") + "]"
+			}
+			if got != wantS {
+				return "active set " + wantS + " (exactly the upstreams that are neither in backoff nor failed their probe); got " + got
+			}
+			if o.Exit != "return" || len(o.Ret) != 1 || (o.Ret[0].Kind == an.KNil) != (len(want) > 0) {
+				return "an error exactly when no main upstream is up"
+			}
+			return ""
+		},
+	})
+	// UDP -> TCP fallback
+	netTCP, _ := c.ConstStr("dnsserver/forward", "NetworkTCP")
+	netUDP, _ := c.ConstStr("dnsserver/forward", "NetworkUDP")
+	decide(c, "C17-R4", fw+"(*UpstreamPlain).exchangeUDP", an.DecideCfg{
+		Dom: an.Domain{"p0.network": an.Strs(netTCP, netUDP, ""), "exerr": an.Bools, "expected": an.Bools, "resp": an.NilOrNot, "resp.MsgHdr.Truncated": an.Bools},
+		OnCall: func(it *an.Interp, name string, args []an.AV) (an.AV, bool) {
+			switch {
+			case strings.HasSuffix(name, ").exchangeNet"):
+				r := it.Feature("resp")
+				if r.Kind == an.KNonNil {
+					r.Key = "resp"
+				}
+				if it.Feature("exerr").IsTrue() {
+					return an.AV{Kind: an.KTuple, Tup: []an.AV{r, an.NonNil("exErr")}}, true
+				}
+				return an.AV{Kind: an.KTuple, Tup: []an.AV{r, an.Nil()}}, true
+			case strings.HasSuffix(name, "forward.isExpectedConnErr"):
+				return it.Feature("expected"), true
+			}
+			return an.AV{}, false
+		},
+		Expect: func(f an.Features, o an.AOutcome) string {
+			if o.Exit != "return" || len(o.Ret) != 3 {
+				return "a (fallback, resp, err) result"
+			}
+			nw := f.S("p0.network")
+			var wantFB bool
+			switch {
+			case nw == netTCP:
+				wantFB = true
+			case f.B("exerr"):
+				wantFB = !f.B("expected")
+			default:
+				wantFB = nw != netUDP && !f.IsNil("resp") && f.B("resp.MsgHdr.Truncated")
+			}
+			if o.Ret[0].String() != fmt.Sprint(wantFB) {
+				return fmt.Sprintf("fallback to TCP=%v", wantFB)
+			}
+			if nw != netTCP && !f.B("exerr") && o.Ret[2].Kind != an.KNil {
+				return "no error for a successful UDP exchange"
+			}
+			return ""
+		},
+	})
 
 	// ---- R4
 	decide(c, "C17-R4", fw+"(*UpstreamPlain).readValidMsg", an.DecideCfg{
